@@ -77,6 +77,19 @@ def cases(draw, tier):
             prev = lab
         outs.append(prev)
         nl = dict(nl, gates=gates, outputs=outs)
+    if nl['gates'] and nl['style'] != 'digits' and draw(st.integers(0, 5)) == 0 and all(g[0] != '' for g in nl['gates']):
+        # one gate carries the empty label (legal, and falsy) - preferably a gate the passes have something to do with:
+        # one of several gates with the same type and operand set, or a unary gate
+        seen: dict = {}
+        for g in nl['gates']:
+            seen.setdefault((g[1], tuple(sorted(g[2]))), []).append(g[0])
+        cand = [l for k, ls in seen.items() if len(ls) > 1 and k[0] != 'INPUT' for l in ls]
+        cand += [g[0] for g in nl['gates'] if g[1] in ('NOT', 'IFF', 'LNOT', 'RNOT', 'LIFF', 'RIFF')]
+        cand = cand or [g[0] for g in nl['gates']]
+        old = cand[draw(st.integers(0, len(cand) - 1))]
+        r = lambda x: '' if x == old else x
+        nl = dict(nl, inputs=[r(x) for x in nl['inputs']], outputs=[r(x) for x in nl['outputs']],
+                  gates=[[r(l), t, [r(o) for o in ops]] for l, t, ops in nl['gates']])
     return {'nl': nl, 'route': draw(gen.routes(nl)), 'spec': spec, 'reuse_instance': draw(st.booleans()),
             'hand': draw(st.sampled_from(['list', 'tuple', 'iter']))}
 
